@@ -2,10 +2,13 @@
 from .common import A_COMMON
 Q = "menelaus.concept_drift.lfr:LinearFourRates"
 TARGETS = [("fn", Q + "._get_four_rates"), ("fn", Q + "._get_four_denominators"), ("fn", Q + ".update@tnr"),
-           ("fn", Q + ".update@tpr_ppv")]
+           ("fn", Q + ".update@tpr_ppv"), ("fn", Q + "._update_bounds_dict"), ("fn", Q + "._sim_bounds")]
 TARGETS_THOROUGH = [("fn", Q + ".update@all")]
 LEVEL = "exploration"
 LEVEL_TEXT = ('Bounded: real LinearFourRates against a plain-Python specification with the Monte-Carlo bounds re-drawn under the same numpy seed schedule (confusion matrix, rates, statistic update rule, burn_in / subsample, tracked subsets, bounds cache keyed by rounded rate / denominator, retraining_recs). Statistical validity of the bounds is not claimed. Claimed as exploration.')
 ASSUMPTIONS = A_COMMON + ['parallelize=True (joblib threads) is excluded (A-SEQ)',
-    "ASSUMED (unverified) contract: LinearFourRates._update_bounds_dict returns some record of four bounds and may extend the cache",
+    "LinearFourRates._update_bounds_dict returns some record of four bounds and may extend the cache, touching nothing else: verified "
+    "with the cache as an opaque dictionary of dictionaries of bound records (reads arbitrary, writes dropped); _sim_bounds returns a "
+    "record of four reals and modifies nothing: verified with the Monte-Carlo block (exps .. result_vector) ABSTRACTED, i.e. not verified; "
+    "WHICH record is used (cached under the rounded key or freshly simulated) and its statistical meaning: bounded tier only",
     "labels are 0/1 integers (the int(1 * y) casts are identities on them); other encodings of 0/1 are checked boundedly (C16)"]
